@@ -19,6 +19,7 @@ fetcher are decided on set-algebra terms / CFG dominance with reaching definitio
 from __future__ import annotations
 
 import ast
+import re
 from fractions import Fraction
 from typing import Any
 
@@ -28,7 +29,7 @@ from ..engine.report import AnalysisError, Run
 from ..engine.resolver import FuncInfo, Program, body_walk, parent_map, walk_no_nested
 from ..engine.terms import Poly
 from ..engine.util import find_calls, method_call, node_writes, reaching_defs, u, writes_of
-from ._c18_util import NONE, Leaf, SymExec, cneg, div_atom, div_linear, fmt, fuse_generator_loop, interval
+from ._c18_util import NONE, Leaf, SymExec, cneg, div_atom, div_linear, fmt, interval
 
 MC = "timeseries.battery_pool._metric_calculator"
 METH = "timeseries.battery_pool._methods"
@@ -55,57 +56,37 @@ def per_weight(p: Poly | None) -> Poly | None:
 # model of one calculator: paths of the loop body and of the code after the loop
 # =============================================================================================
 class Calc:
-    def __init__(self, prog: Program, fn: FuncInfo) -> None:  # noqa: C901
+    """One call of `calculate`, every private callee executed in line: the aggregation loop may live in
+    `calculate` itself or in a helper whose (tuple) result `calculate` goes on with."""
+
+    def __init__(self, prog: Program, fn: FuncInfo) -> None:
         self.fn = fn
         self.prog = prog
-        body = list(fn.node.body)
-        loops = [i for i, s in enumerate(body) if isinstance(s, ast.For)]
-        if len(loops) != 1 or any(isinstance(n, (ast.For, ast.While, ast.AsyncFor)) and n is not body[loops[0]]
-                                  for n in body_walk(fn.node)):
-            raise AnalysisError(f"{fn.qual}: aggregation loop not found")
-        self.loop: ast.For = body[loops[0]]  # type: ignore[assignment]
-        self.sym = SymExec(prog, fn, call_hook=self._call_hook)
-        if self.loop.orelse:
-            raise AnalysisError(f"{fn.qual}: unsupported loop shape")
-        for _ in range(3):  # a loop over a private generator is read together with the generator's loop
-            fused = fuse_generator_loop(self.sym, self.loop)
-            if fused is self.loop:
-                break
-            self.loop = fused
-        if self.loop.orelse or not isinstance(self.loop.target, ast.Name):
-            raise AnalysisError(f"{fn.qual}: unsupported loop shape")
         if len(fn.params) < 3:
             raise AnalysisError(f"{fn.qual}: signature changed")
         self.md, self.wb = fn.params[1], fn.params[2]
         self.data_atoms = {f"{self.md}[BID]", f"{self.md}.get(BID)"}
         self.roles: dict[str, str] = {}  # role atom -> data atom it was read from
-        # ---- before the loop: straight-line initialisation
-        pre = self.sym.run(body[:loops[0]], {})
-        if len(pre) != 1 or pre[0].kind != "fall" or pre[0].facts:
-            raise AnalysisError(f"{fn.qual}: code before the loop is not a straight-line initialisation")
-        self.pre_env = pre[0].env
-        # ---- iteration domain
-        it: ast.AST = self.loop.iter
-        while isinstance(it, ast.Call) and u(it.func) in SET_WRAPPERS and len(it.args) == 1 and not it.keywords:
-            it = it.args[0]
-        self.iter_term = repr(self.sym.ev(it, self.pre_env))
+        self.sym = SymExec(prog, fn, call_hook=self._call_hook, item_atom="BID")
+        self.post = self.sym.run(list(fn.node.body), {})
+        if len(self.sym.loops) != 1 or self.sym.loops[0].facts:
+            raise AnalysisError(f"{fn.qual}: aggregation loop not found ({len(self.sym.loops)} loops on the paths of one call)")
+        rec = self.rec = self.sym.loops[0]
+        self.loop, self.pre_env, self.iter_term, self.body = rec.node, rec.pre_env, rec.iter_term, rec.leaves
         # ---- one iteration, every path
-        assigned = sorted({n.id for s in self.loop.body for n in ast.walk(s)
-                           if isinstance(n, ast.Name) and isinstance(n.ctx, (ast.Store, ast.Del))})
-        if self.loop.target.id in assigned or any(x in assigned for x in (self.md, self.wb)):
-            raise AnalysisError(f"{fn.qual}: loop variable or parameter rebound in the loop")
-        env0 = dict(self.pre_env)
-        for v in assigned:
-            env0[v] = Poly.atom(f"{v}@0")
-        env0[self.loop.target.id] = Poly.atom("BID")
-        self.body = self.sym.run(self.loop.body, env0)
+        for v in rec.assigned:
+            if (rec.fn is fn and v in (self.md, self.wb)) or rec.pre_env.get(v) in (Poly.atom(self.md), Poly.atom(self.wb)):
+                raise AnalysisError(f"{fn.qual}: parameter rebound in the loop")
         bad = [x for x in self.body if x.kind not in ("fall", "continue")]
         if bad:
             raise AnalysisError(f"{fn.qual}: `{bad[0].kind}` inside the aggregation loop")
-        # ---- loop-carried state that is observable after the loop
-        post_stmts = body[loops[0] + 1:]
-        read_after = {n.id for s in post_stmts for n in ast.walk(s) if isinstance(n, ast.Name) and isinstance(n.ctx, ast.Load)}
-        self.carried = [v for v in assigned if v in read_after]
+        # ---- after the loop: every path ends in `return`
+        bad = [x for x in self.post if x.kind != "return"]
+        if bad or not self.post:
+            raise AnalysisError(f"{fn.qual}: a path after the loop does not end in `return` ({bad[0].kind if bad else 'none'})")
+        # ---- loop-carried state that is observable after the loop (in a branch condition or in the result)
+        seen_after = " ".join(" ".join(fmt(f) for f in x.facts) + " " + repr(x.value) for x in self.post)
+        self.carried = [v for v in rec.assigned if re.search(rf"(?<![A-Za-z0-9_]){re.escape(v)}@loop", seen_after)]
         if not self.carried:
             raise AnalysisError(f"{fn.qual}: accumulator / timestamp updates not found")
         for v in self.carried:
@@ -117,14 +98,6 @@ class Calc:
         if len(cands) == 1:
             self.sentinel = cands[0]
         self.accs = [v for v in self.carried if v != self.sentinel]
-        # ---- after the loop
-        env1 = dict(self.pre_env)
-        for v in assigned:
-            env1[v] = Poly.atom(f"{v}@loop")
-        self.post = self.sym.run(post_stmts, env1)
-        bad = [x for x in self.post if x.kind != "return"]
-        if bad or not self.post:
-            raise AnalysisError(f"{fn.qual}: a path after the loop does not end in `return` ({bad[0].kind if bad else 'none'})")
 
     # ------------------------------------------------------------------ atoms
     def _call_hook(self, sym: SymExec, fname: str, recv: str | None, args: list[Poly], kws: dict[str, Poly],
@@ -913,9 +886,13 @@ def structural_controls(prog: Program) -> list[tuple[str, str, str, str, str]]: 
     for cname, wrapper, mutate in (("SoCCalculator", "Percentage.from_percent", "100.0 - ({})"),
                                    ("CapacityCalculator", "Energy.from_watt_hours", "({}) * 2")):
         fn = prog.func(f"{MC}:{cname}.calculate")
-        loops = [s for s in fn.node.body if isinstance(s, ast.For)]
-        if len(loops) == 1 and len(fn.params) >= 3:
-            add(f"{cname}: loop over all the data", MC, [(loops[0].iter, fn.params[1])], "C18.EXCL")
+        try:
+            rec = Calc(prog, fn).rec
+            md_names = [n for n, v in rec.pre_env.items() if v == Poly.atom(fn.params[1])] or [fn.params[1]]
+            if rec.fn.module.name == MC:
+                add(f"{cname}: loop over all the data", MC, [(rec.orig.iter, md_names[0])], "C18.EXCL")
+        except AnalysisError:
+            pass
         nodes = class_nodes(f"{MC}:{cname}")
         # the sentinel test after the loop, reversed
         cmps = [n for n in body_walk(fn.node) if isinstance(n, ast.Compare) and len(n.ops) == 1
